@@ -212,20 +212,24 @@ static void sub_monotone() {
         Rng r(vf::case_seed("monotone", idx)); int pk = (int)(idx % 4); bool spd = (idx / 4) % 4 == 0; if (spd && pk == 3) pk = 2; if (pk == 1) pk = 2;    // exact P converges in one step: nothing to observe
         System s = make_system(r, spd, pk); Case c("monotone", idx, sysdesc(s)); int n = s.n; R nf = s.f.norm();
         int K = vf::thorough() ? 2 * n : 16;
+        Mat aA = s.A.cwiseAbs(); R nP = 1; { Eigen::JacobiSVD<Mat> svd(s.P); nP = svd.singularValues()[0]; }
         for (int Mr : {1, 2, 4, 30}) for (int which = 0; which < 5; ++which) {
-            static const char *nm[5] = {"gmres", "gmres-left", "fgmres", "lgmres", "lgmres-left"}; std::string name = std::string(nm[which]) + "(M=" + std::to_string(Mr) + ")";
-            bool left = which == 1 || which == 4; double prev = std::numeric_limits<double>::infinity(), prevt = prev; double res0 = 0;
-            for (int k = 0; k <= K; ++k) {
+            static const char *nm[5] = {"gmres", "gmres-left", "fgmres", "lgmres", "lgmres-left"};
+            bool left = which == 1 || which == 4; double prev = std::numeric_limits<double>::infinity(), prevt = prev;
+            unsigned Kl = (unsigned)(idx % 3); int cyc = which >= 3 ? Mr + (int)Kl : Mr;      // inner cycle length (LGMRES: M + K)
+            int Kmax = cyc >= n ? std::min(K, n) : K;                                       // "k up to the subspace size": a single cycle cannot exceed n steps
+            for (int k = 0; k <= Kmax; ++k) {
                 Run o;
                 if (which <= 1) { amgcl::solver::gmres<B>::params p; budget(p, k); p.M = Mr; p.pside = left ? side::left : side::right; amgcl::solver::gmres<B> Sv(n, p); o = run(Sv, s); }
                 else if (which == 2) { amgcl::solver::fgmres<B>::params p; budget(p, k); p.M = Mr; amgcl::solver::fgmres<B> Sv(n, p); o = run(Sv, s); }
-                else { amgcl::solver::lgmres<B>::params p; budget(p, k); p.M = Mr; p.K = (unsigned)(idx % 3); p.pside = left ? side::left : side::right; amgcl::solver::lgmres<B> Sv(n, p); o = run(Sv, s); }
+                else { amgcl::solver::lgmres<B>::params p; budget(p, k); p.M = Mr; p.K = Kl; p.pside = left ? side::left : side::right; amgcl::solver::lgmres<B> Sv(n, p); o = run(Sv, s); }
                 if (o.threw) { c.fail(std::string(nm[which]) + ":exception", o.what, J().n("k", k).n("M", Mr)); break; }
                 Vec xk = to_vec(o.x); Vec ra = s.f - s.A * xk; if (left) ra = s.P * ra; double tr = (double)(ra.norm() / nf);
-                if (k == 0) res0 = o.res;
-                // rounding slack: the residual is evaluated in working precision, absolute error <= 1e-13 of the initial one (n <= 24, kappa <= 10)
-                c.check(std::isfinite(o.res) && o.res <= prev * (1 + 1e-10) + 1e-13 * res0, std::string(nm[which]) + ":reported-residual-increases", "reported residual increased from k-1 to k", J().n("k", k).n("M", Mr).n("prev", prev).n("now", o.res));
-                c.check(std::isfinite(tr) && tr <= prevt * (1 + 1e-10) + 1e-13 * res0, std::string(nm[which]) + ":true-residual-increases", "true (preconditioned) residual of the iterate increased from k-1 to k", J().n("k", k).n("M", Mr).n("prev", prevt).n("now", tr));
+                // rounding slack: two working-precision evaluations of the residual are compared; each is off by at most
+                // 8 u (n + 3) (|| |A||x| || + ||f||) (times ||P||_2 on the left side), relative to ||f||
+                Vec ax = aA * xk.cwiseAbs(); double slack = 2 * (double)(8.0L * vf::unit_roundoff<S>::get() * (n + 3) * (ax.norm() + nf) * (left ? nP : (R)1) / nf);
+                c.check(std::isfinite(o.res) && o.res <= prev * (1 + 1e-10) + slack, std::string(nm[which]) + ":reported-residual-increases", "reported residual increased from k-1 to k", J().n("k", k).n("M", Mr).n("prev", prev).n("now", o.res).n("slack", slack));
+                c.check(std::isfinite(tr) && tr <= prevt * (1 + 1e-10) + slack, std::string(nm[which]) + ":true-residual-increases", "true (preconditioned) residual of the iterate increased from k-1 to k", J().n("k", k).n("M", Mr).n("prev", prevt).n("now", tr).n("slack", slack));
                 prev = o.res; prevt = tr; vf::obs_sum("method_k_pairs");
             }
             c.nontrivial();
@@ -277,6 +281,91 @@ static void sub_bicgstab() {
 }
 
 //---------------------------------------------------------------------------
+// BiCGStab(L), L in {2,4} (default "convex" = plain minimal-residual polynomial): reference from the definition in Sleijpen & Fokkema (1993):
+// L BiCG steps building r_j = Op^j r, u_j = Op^j u, then the degree-L minimal residual polynomial: gamma = argmin || r_0 - [r_1..r_L] gamma ||
+// (dense least squares in long double), x += sum gamma_j r_{j-1}, u_0 -= sum gamma_j u_j, r_0 -= sum gamma_j r_j, omega = gamma_L.
+//---------------------------------------------------------------------------
+static BiRef bicgstabl_ref(const Mat &A, const Mat &P, const Vec &f, const Vec &x0, int Lp, int cycles, bool left) {
+    int n = (int)f.size(); auto Op = [&](const Vec &v) { return left ? Vec(P * (A * v)) : Vec(A * (P * v)); };
+    auto cosang = [](L ip, const Vec &a, const Vec &b) { R d = a.norm() * b.norm(); return d > 0 ? (R)std::abs(ip) / d : (R)0; };
+    Vec b = left ? Vec(P * (f - A * x0)) : Vec(f - A * x0); std::vector<Vec> Rv(Lp + 1, Vec::Zero(n)), U(Lp + 1, Vec::Zero(n)); Rv[0] = b; Vec rt = b, X = Vec::Zero(n);
+    L alpha = 0, rho0 = 1, omega = 1; R amp = 1;
+    for (int c = 0; c < cycles; ++c) {
+        rho0 = -omega * rho0;
+        for (int j = 0; j < Lp; ++j) {
+            L rho1 = rt.dot(Rv[j]); amp *= 1 / std::max<R>(1e-30L, cosang(rho1, rt, Rv[j]));
+            L beta = alpha * (rho1 / rho0); rho0 = rho1;
+            for (int i = 0; i <= j; ++i) { Vec t = Rv[i] - beta * U[i]; U[i] = t; }
+            U[j + 1] = Op(U[j]); L sigma = rt.dot(U[j + 1]); amp *= 1 / std::max<R>(1e-30L, cosang(sigma, rt, U[j + 1])); alpha = rho1 / sigma;
+            X += alpha * U[0];
+            for (int i = 0; i <= j; ++i) Rv[i] -= alpha * U[i + 1];
+            Rv[j + 1] = Op(Rv[j]);
+        }
+        Mat Rm(n, Lp); for (int j = 1; j <= Lp; ++j) Rm.col(j - 1) = Rv[j];
+        Vec g = Rm.fullPivHouseholderQr().solve(Rv[0]);
+        { Eigen::JacobiSVD<Mat> svd(Rm); R smax = svd.singularValues()[0], smin = svd.singularValues()[Lp - 1]; R cd = smin > 0 ? smax / smin : (R)1e30L; amp *= cd * cd; }   // normal equations square the conditioning
+        omega = g[Lp - 1];
+        for (int j = 1; j <= Lp; ++j) X += g[j - 1] * Rv[j - 1];
+        for (int j = 1; j <= Lp; ++j) U[0] -= g[j - 1] * U[j];
+        for (int j = 1; j <= Lp; ++j) Rv[0] -= g[j - 1] * Rv[j];
+    }
+    Vec x = left ? Vec(x0 + X) : Vec(x0 + P * X); return BiRef{x, amp};
+}
+static void sub_bicgstabl() {
+    long N = vf::tier(30, 600);
+    for (long idx = 0; idx < N; ++idx) {
+        if (!vf::selected("bicgstabl", idx)) continue;
+        Rng r(vf::case_seed("bicgstabl", idx)); int pk = (int)(idx % 3) == 1 ? 3 : (int)(idx % 3); bool spd = (idx / 3) % 4 == 0; if (spd && pk == 3) pk = 2;
+        System s = make_system(r, spd, pk, 10, 24, false, 4.0); Case c("bicgstabl", idx, sysdesc(s)); int n = s.n;
+        for (int Lp : {2, 4}) for (int cyc = 1; cyc <= (Lp == 2 ? 3 : 2); ++cyc) for (int left = 0; left < 2; ++left) {
+            std::string name = "bicgstabl(L=" + std::to_string(Lp) + ")" + (left ? "-left" : "");
+            BiRef ref = bicgstabl_ref(s.A, s.P, s.f, s.x0, Lp, cyc, left);
+            // tolerance 1e-8, widened to 1e3 u amp when the recurrences / normal equations are sensitive; beyond 1e-4 nothing can be said (skipped, counted)
+            double tolr = std::max(1e-8, 1e3 * vf::unit_roundoff<S>::get() * (double)ref.amp);
+            if (!(tolr < 1e-4) || !std::isfinite((double)ref.x.norm())) { vf::obs_sum("bicgstabl_ill_conditioned_skipped"); continue; }
+            amgcl::solver::bicgstabl<B>::params p; budget(p, (size_t)Lp * cyc); p.L = Lp; p.pside = left ? side::left : side::right; amgcl::solver::bicgstabl<B> Sv(n, p); Run o = run(Sv, s);
+            if (o.threw) { c.fail(name + ":exception", o.what, J().n("cycles", cyc)); continue; }
+            Vec xk = to_vec(o.x); R err = (xk - ref.x).cwiseAbs().maxCoeff(), sc = ref.x.cwiseAbs().maxCoeff();
+            c.check(allfinite(o.x) && (double)err <= tolr * (double)sc, name + ":iterate-differs-from-reference", "iterate after whole BiCGStab(L) cycles differs from the definition (BiCG steps + minimal residual polynomial of degree L)",
+                    J().n("cycles", cyc).n("L", Lp).n("err", (double)err).n("scale", (double)sc).n("amplification", (double)ref.amp));
+            c.check(o.iters == (size_t)Lp * cyc, name + ":iteration-count", "tol = 0 run did not perform exactly maxiter iterations", J().n("iters", o.iters).n("expected", Lp * cyc));
+            vf::obs_max(name + "_max_rel_err", (double)(err / sc)); vf::obs_sum("method_k_pairs"); c.nontrivial();
+        }
+    }
+}
+
+//---------------------------------------------------------------------------
+// IDR(s): the shadow space is private to the solver, but its defining dimension-reduction step is observable from outside:
+// after s intermediate steps, step s+1 is  x <- x + w Prec r,  r <- (I - w A Prec) r  with w = argmin ||r - w A Prec r|| (params::omega = 0), or that value
+// increased by omega / |cos(A Prec r, r)| when the cosine is below params::omega ("maintaining the convergence" strategy documented in params).
+// Two runs (maxiter = s and s + 1) give x_s and x_{s+1}; r_s is recomputed from x_s.
+//---------------------------------------------------------------------------
+static void sub_idrs() {
+    long N = vf::tier(30, 600);
+    for (long idx = 0; idx < N; ++idx) {
+        if (!vf::selected("idrs", idx)) continue;
+        Rng r(vf::case_seed("idrs", idx)); int pk = (int)(idx % 3) == 1 ? 3 : (int)(idx % 3); bool spd = (idx / 3) % 4 == 0; if (spd && pk == 3) pk = 2;
+        System s = make_system(r, spd, pk, 12, 24, false, 6.0); Case c("idrs", idx, sysdesc(s)); int n = s.n;
+        for (unsigned sv = 1; sv <= 8; ++sv) for (int strat = 0; strat < 2; ++strat) {
+            double om = strat ? 0.7 : 0.0; std::string name = "idrs(s=" + std::to_string(sv) + ")";
+            amgcl::solver::idrs<B>::params p; p.s = sv; p.omega = om; p.tol = 0;
+            p.maxiter = sv; amgcl::solver::idrs<B> S1(n, p); Run a = run(S1, s);
+            p.maxiter = sv + 1; amgcl::solver::idrs<B> S2(n, p); Run b = run(S2, s);
+            if (a.threw || b.threw) { c.fail(name + ":exception", a.threw ? a.what : b.what); continue; }
+            if (!c.check(a.iters == sv && b.iters == sv + 1, name + ":iteration-count", "tol = 0 runs did not perform exactly maxiter iterations", J().n("s", sv).n("iters_a", a.iters).n("iters_b", b.iters))) continue;
+            Vec xa = to_vec(a.x), xb = to_vec(b.x), rs = s.f - s.A * xa, v = s.P * rs, t = s.A * v, dx = xb - xa;
+            L w = t.dot(rs) / t.dot(t); R rho = (R)std::abs(t.dot(rs)) / (t.norm() * rs.norm());
+            if (!(rs.norm() > 1e-6L * s.f.norm()) || !(rho > 1e-3L)) { vf::obs_sum("idrs_step_skipped_converged_or_orthogonal"); continue; }   // nothing to observe / quotient ill-conditioned
+            if ((R)om > rho) w *= (L)((R)om / rho);
+            Vec ex = w * v; R err = (dx - ex).norm(), sc = ex.norm();
+            c.check(allfinite(b.x) && (double)err <= 1e-8 * (double)sc / (double)std::min<R>(1, rho), name + ":dimension-reduction-step", "step s+1 of IDR(s) is not x + w Prec r with the minimal-residual w (adjusted by params::omega)",
+                    J().n("s", sv).n("omega_param", om).n("err", (double)err).n("scale", (double)sc).n("cos", (double)rho));
+            vf::obs_max("idrs_mr_step_max_rel_err", (double)(err / sc)); vf::obs_sum("method_k_pairs"); c.nontrivial();
+        }
+    }
+}
+
+//---------------------------------------------------------------------------
 // Richardson: x + w P (f - A x) repeated k times
 //---------------------------------------------------------------------------
 static void sub_richardson() {
@@ -312,7 +401,7 @@ static void sub_termination() {
     for (long idx = 0; idx < N; ++idx) {
         if (!vf::selected("termination", idx)) continue;
         Rng r(vf::case_seed("termination", idx)); bool exact = idx % 2; bool spd = (idx / 2) % 3 == 0; bool few = (idx / 6) % 2 == 0;
-        System s = make_system(r, spd, exact ? 1 : 0, 8, 24, few, few ? 10.0 : atof(vf::opt("term_kmax", "4.0").c_str()), true, few ? 1.0 : atof(vf::opt("term_theta", "1.0").c_str())); int n = s.n; Case c("termination", idx, sysdesc(s)); R nf = s.f.norm();
+        System s = make_system(r, spd, exact ? 1 : 0, 8, 24, few, few ? 10.0 : 3.0, true, few ? 1.0 : 0.7); int n = s.n; Case c("termination", idx, sysdesc(s)); R nf = s.f.norm();
         auto verdict = [&](const std::string &name, const Run &o, size_t bud, size_t slack) {
             if (o.threw) {   // a breakdown exception is acceptable only if the initial guess already satisfied the tolerance (nothing to do)
                 Vec r0 = s.f - s.A * s.x0; c.check((double)(r0.norm() / nf) < 1e-8, name + ":exception", "exception on a well-conditioned system: " + o.what); return; }
@@ -337,10 +426,13 @@ static void sub_termination() {
 int main(int argc, char **argv) {
     vf::init(argc, argv);
     vf::obs_add("value_types", VT);
+    vf::obs_set("termination_generator", "G9 n in 8..24; m distinct eigenvalues: 2 <= m <= n/2 with kappa <= 10, |arg| <= 1 rad (complex), or m = n with kappa <= 3, |arg| <= 0.7 rad; eigenvector condition <= 2; identity or exact preconditioner");
     if (vf::sub_enabled("cg")) sub_cg();
     if (vf::sub_enabled("gmres")) sub_gmres();
     if (vf::sub_enabled("monotone")) sub_monotone();
     if (vf::sub_enabled("bicgstab")) sub_bicgstab();
+    if (vf::sub_enabled("bicgstabl")) sub_bicgstabl();
+    if (vf::sub_enabled("idrs")) sub_idrs();
     if (vf::sub_enabled("richardson")) sub_richardson();
     if (vf::sub_enabled("termination")) sub_termination();
     return vf::finish();
